@@ -439,25 +439,87 @@ func inFlightHistories(c *engine.Ctx) {
 		depth = 6
 	}
 	var n int64
+	defer func() {
+		if alphabet[len(alphabet)-1] == "timer~" {
+			return
+		}
+		// second pass: Destroy as a plain event and as the operation that overtakes an in-flight request (x~), one level less deep
+		alphabet = []string{"login", "tA", "timer", "near-end", "tA*", "timer*", "destroy", "tA~", "timer~"}
+		depth--
+		var rec2 func(h []string)
+		rec2 = func(h []string) {
+			if len(h) > 0 && strings.ContainsAny(strings.Join(h, ","), "~y") { // histories without Destroy were run by the first pass
+				runHist(c, h, &n)
+			}
+			if len(h) == depth || c.Expired() {
+				return
+			}
+			for _, ev := range alphabet {
+				if len(h) == 0 && ev != "login" {
+					continue
+				}
+				rec2(append(append([]string{}, h...), ev))
+			}
+		}
+		rec2(nil)
+		c.Add("evaluations", n)
+		c.Add("states", n)
+		c.Add("transitions", n)
+		c.Cov["in_flight_histories"] = n
+	}()
 	var rec func(h []string)
-	run := func(h []string) {
-		n++
+	run := func(h []string) { runHist(c, h, &n) }
+	rec = func(h []string) {
+		if len(h) > 0 {
+			run(h)
+		}
+		if len(h) == depth || c.Expired() {
+			return
+		}
+		for _, ev := range alphabet {
+			if len(h) == 0 && ev != "login" {
+				continue // every history starts logged in
+			}
+			rec(append(append([]string{}, h...), ev))
+		}
+	}
+	rec(nil)
+}
+
+// runHist runs one in-flight history under the scheduler and judges it.
+func runHist(c *engine.Ctx, h []string, np *int64) {
+	{
+		*np++
 		var w *cworld.World
 		var opErr []string
 		x := vsched.Run(nil, 400000, func() {
 			vclock.Virtual(cworld.T0)
 			vclock.AutoTick = time.Microsecond
 			w = cworld.New(optsFor(Scenario{NKDC: 1, Renew: true}))
-			armed := false
+			armed := ""
 			for _, nw := range []string{"udp", "tcp"} {
 				vnet.Register(nw, w.KDCAddr[0], &vnet.Endpoint{Behaviour: vnet.Answer, Handler: func(network, a string, req []byte) []byte {
 					rep := w.KDC.Handle(network, req)
-					if r, err := krbmsg.DecodeKDCReq(req); err == nil && r.App == krbmsg.AppTGSReq && armed {
-						armed = false
-						w.Client.Login() // completes while the reply to req is in flight
+					if r, err := krbmsg.DecodeKDCReq(req); err == nil && r.App == krbmsg.AppTGSReq && armed != "" {
+						// completes while the reply to req is in flight
+						if armed == "login" {
+							w.Client.Login()
+						} else {
+							w.Client.Destroy()
+						}
+						armed = ""
 					}
 					return rep
 				}})
+			}
+			arm := func(ev string) string {
+				switch {
+				case strings.HasSuffix(ev, "*"):
+					return "login"
+				case strings.HasSuffix(ev, "~"):
+					return "destroy"
+				}
+				return ""
 			}
 			for _, ev := range h {
 				switch ev {
@@ -465,12 +527,14 @@ func inFlightHistories(c *engine.Ctx) {
 					if err := w.Client.Login(); err != nil {
 						opErr = append(opErr, ev+": "+err.Error())
 					}
-				case "tA", "tA*":
-					armed = ev == "tA*"
+				case "destroy":
+					w.Client.Destroy()
+				case "tA", "tA*", "tA~":
+					armed = arm(ev)
 					w.Client.GetServiceTicket(spns["tA"])
-					armed = false
-				case "timer", "timer*":
-					armed = ev == "timer*"
+					armed = ""
+				case "timer", "timer*", "timer~":
+					armed = arm(ev)
 					var next time.Time
 					for _, t := range vclock.PendingTimers() {
 						if t.After(vclock.Now()) && (next.IsZero() || t.Before(next)) {
@@ -481,7 +545,7 @@ func inFlightHistories(c *engine.Ctx) {
 						vclock.Set(next)
 					}
 					vsched.Quiesce()
-					armed = false
+					armed = ""
 				case "near-end":
 					var end time.Time
 					for _, s := range w.Client.VerifSessions() {
@@ -496,7 +560,7 @@ func inFlightHistories(c *engine.Ctx) {
 				vsched.Quiesce()
 			}
 		})
-		recd := map[string]interface{}{"history": h, "legend": "x* = a Login completes while the first TGS request of x is in flight"}
+		recd := map[string]interface{}{"history": h, "legend": "x* / x~ = a Login / Destroy completes while the first TGS request of x is in flight"}
 		if x.Panic != "" {
 			c.Violate("inflight", "panic:in-flight-history", map[string]interface{}{"panic": x.Panic}, recd)
 			return
@@ -515,25 +579,6 @@ func inFlightHistories(c *engine.Ctx) {
 			c.Distinct("inflight/" + strings.Join(h, ","))
 		}
 	}
-	rec = func(h []string) {
-		if len(h) > 0 {
-			run(h)
-		}
-		if len(h) == depth || c.Expired() {
-			return
-		}
-		for _, ev := range alphabet {
-			if len(h) == 0 && ev != "login" {
-				continue // every history starts logged in
-			}
-			rec(append(append([]string{}, h...), ev))
-		}
-	}
-	rec(nil)
-	c.Add("evaluations", n)
-	c.Add("states", n)
-	c.Add("transitions", n)
-	c.Cov["in_flight_histories"] = n
 }
 
 func lastN(s []string, n int) []string {
